@@ -45,6 +45,20 @@ def Kind.isSeq : Kind → Bool
   | .list | .tuple | .set | .fset => true
   | _ => false
 
+/-- collections.deque / bytearray: mutable builtins `copy_value` does not rebuild -/
+abbrev Kind.deque : Kind := .opq 1
+abbrev Kind.bytearray : Kind := .opq 0
+
+/-- the classes `to_array_types` is registered for (transform.py:255): list, tuple, set, frozenset, deque -/
+def Kind.isSeqTarget : Kind → Bool
+  | .list | .tuple | .set | .fset | .opq 1 => true
+  | _ => false
+
+/-- `value[:n]` works (list, tuple, bytearray); set / frozenset / deque / dict raise TypeError -/
+def Kind.sliceable : Kind → Bool
+  | .list | .tuple | .opq 0 => true
+  | _ => false
+
 def Kind.isSet : Kind → Bool
   | .set | .fset => true
   | _ => false
@@ -181,6 +195,8 @@ inductive Ty where
   | tup (ts : List Ty)        -- Tuple[T1, .., Tn]
   | opt (t : Ty)              -- Optional[T]
   | data (k : Nat)            -- a data class of the environment (possibly by forward reference)
+  | con (t : Ty) (length maxLength : Option (Nat × Bool)) (minLength : Option Nat)
+      -- `Field(length=.., max_length=.., min_length=..)` on a container type; `(n, true)` = `Lax(n)`
   deriving Repr, Inhabited
 
 inductive Dflt where
@@ -195,7 +211,13 @@ structure Field where
   ty : Ty
   dflt : Dflt
   noOutput : Bool := false
+  own : Bool := true          -- set up by the class itself or by a case-insensitive base (false: a ParserField taken over
+                              -- from a case-sensitive base class, whose aliases stay as declared)
   deriving Repr
+
+def Dflt.isNone : Dflt → Bool
+  | .none => true
+  | _ => false
 
 inductive DKind where
   | schema | dataclass | func
@@ -212,9 +234,19 @@ inductive FKind where
   | sync | async | gen | agen
   deriving DecidableEq, Repr
 
+/-- running options given to one parse: `Cls.__from__(data, Options(...))` (they *replace* the class options
+for that parse, options.py:216-222); `mode` and `collect_errors` do not enter the outcome on this fragment -/
+structure ROpts where
+  ignoreRequired : Bool := false       -- also implied by force_default (options.py:173-179)
+  noDefault : Bool := false
+  force : Option Val := none           -- force_default
+  dfs : Option Bool := none            -- data_first_search
+  deriving Repr
+
 structure Decl where
   kind : DKind
   dfs : Bool := false                       -- Options(data_first_search=True)
+  ci : Bool := false                        -- Options(case_insensitive=True)
   fields : List Field
   wrappers : List (Option Opts) := []        -- func: `utype.parse(raw, options=..)` applied in this order
   fkind : FKind := .sync                     -- func: plain / `async def` / generator / async generator
@@ -237,14 +269,21 @@ def Env.declIds (E : Env) : List Nat := mutIdsL E.dfltVals
 /-- … and those of them `copy_value` does not rebuild (empty when defaults are list/set/tuple/dict nests) -/
 def Env.leak (E : Env) : List Nat := opqIdsL E.dfltVals
 
-/-- `ParserField.get_default` — field.py:768-796 (no `no_default` / `defer_default` / `force_default`) -/
-def getDefault : Dflt → St → Option Val × St
+/-- `ParserField.get_default` — field.py:768-796 for the field's own default -/
+def getDefault0 : Dflt → St → Option Val × St
   | .none, s => (Option.none, s)                                           -- `return unprovided`
   | .val d, s => match copyValue d s with | (v, s1) => (some v, s1)        -- `copy_value(self.default)`
   | .shared d, s => match copyValue d s with | (v, s1) => (some v, s1)     -- `copy_value(self.default_factory())`
   | .fresh sh, s =>
       match sh.build s with
       | (d, s1) => match copyValue d s1 with | (v, s2) => (some v, s2)
+
+/-- … with the running options: `no_default` first, then `force_default`, then the field (field.py:770-796) -/
+def getDefault (ro : ROpts) (d : Dflt) : St → Option Val × St := fun s =>
+  if ro.noDefault then (Option.none, s)
+  else match ro.force with
+    | some a => (match copyValue a s with | (v, s1) => (some v, s1))       -- `copy_value(options.force_default)`
+    | Option.none => getDefault0 d s
 
 /-! ### converters -/
 
@@ -277,7 +316,7 @@ def mkSeq (k : Kind) (items : List Val) (written : Bool) : Comp := fun s =>
 /-- `apply(value, origin, func=to_array_types)` for origin ∈ {list, tuple, set, frozenset}
 (transform.py:255-310, 692-700) and `to_dict` for origin = dict (transform.py:312-330). -/
 def convBare (o : Opts) (k : Kind) (v : Val) : Comp := fun s =>
-  if k.isSeq then
+  if k.isSeqTarget then
     match v with
     | .node _ k' _ items =>
         if k' == k then (.ok v, s)                                   -- exact type / `isinstance(data, t)`: the argument itself
@@ -290,7 +329,12 @@ def convBare (o : Opts) (k : Kind) (v : Val) : Comp := fun s =>
           else if k.isSet then (.error (.unmodelled "set from dict"), s)
           else if items.isEmpty then mk k [] [] false s              -- `{}` → `t()`
           else mk k [] [v] false s                                   -- `t([data])`
-        else (.error (.unmodelled "sequence from instance/opaque"), s)
+        else if k' == Kind.deque then
+          -- a deque is not `multi()`: it is wrapped like a scalar, `t([data])`
+          if o.strict then (.error .perr, s)
+          else if k.isSet then (.error .perr, s)                     -- unhashable
+          else mk k [] [v] false s
+        else (.error (.unmodelled "sequence from instance/bytearray"), s)
     | _ => if o.strict then (.error .perr, s) else mkSeq k [v] false s   -- `t([data])`
   else if k == .dict then
     match v with
@@ -302,7 +346,57 @@ def convBare (o : Opts) (k : Kind) (v : Val) : Comp := fun s =>
           else (.error (.unmodelled "dict from non-empty sequence"), s)
         else (.error (.unmodelled "dict from instance/opaque"), s)
     | _ => (.error .perr, s)
+  else if k == Kind.bytearray then
+    match v with
+    | .node _ k' _ _ =>
+        if k' == Kind.bytearray then (.ok v, s)                      -- exact type: the argument itself
+        else (.error (.unmodelled "bytearray from another container"), s)
+    | _ => (.error (.unmodelled "bytearray from an atom"), s)
   else (.error (.unmodelled "bare kind"), s)
+
+/-- `value[:n]` — `lax_length` / `lax_max_length` (rule.py:1046-1078): a *new* object for list / tuple / bytearray,
+TypeError (→ ParseError) for what cannot be sliced -/
+def laxCut (n : Nat) : Val → Comp
+  | .node _ k _ xs, s => if k.sliceable then mk k [] (xs.take n) false s else (.error .perr, s)
+  | _, s => (.error (.unmodelled "length of an atom"), s)
+
+def lenOf : Val → Nat
+  | .node _ _ _ xs => xs.length
+  | _ => 0
+
+/-- run `f` on the result of `c` unless `c` failed -/
+def andThen (c : Comp) (f : Val → Comp) : Comp := fun s =>
+  match c s with
+  | (.error e, s1) => (.error e, s1)
+  | (.ok v, s1) => f v s1
+
+/-- `length` / `lax_length` (rule.py:1038-1058) -/
+def consLength (c : Option (Nat × Bool)) (v : Val) : Comp := fun s =>
+  match c with
+  | Option.none => (.ok v, s)
+  | some (n, lax) =>
+      if lenOf v == n then (.ok v, s)                 -- `return value`: the validated object itself
+      else if lax && lenOf v > n then laxCut n v s    -- `return value[:lg]`
+      else (.error .perr, s)
+
+/-- `max_length` / `lax_max_length` (rule.py:1060-1080) -/
+def consMax (c : Option (Nat × Bool)) (v : Val) : Comp := fun s =>
+  match c with
+  | Option.none => (.ok v, s)
+  | some (n, lax) =>
+      if lenOf v ≤ n then (.ok v, s)
+      else if lax then laxCut n v s                   -- `return value[:m]`
+      else (.error .perr, s)
+
+/-- `min_length` (rule.py:1082-1089) -/
+def consMin (c : Option Nat) (v : Val) : Comp := fun s =>
+  match c with
+  | Option.none => (.ok v, s)
+  | some n => if lenOf v < n then (.error .perr, s) else (.ok v, s)
+
+/-- the length validators in the order of `Rule.__constraints__` (rule.py:1141-1143): length, max_length, min_length -/
+def applyCons (length maxLength : Option (Nat × Bool)) (minLength : Option Nat) (v : Val) : Comp :=
+  andThen (andThen (consLength length v) (consMax maxLength)) (consMin minLength)
 
 /-- map a computation over a list, stopping at the first error (fail-fast `throw` policy) -/
 def mapC (f : Val → Comp) : List Val → St → Except Err (List Val) × St
@@ -331,66 +425,84 @@ def lookupKV (k : String) : List String → List Val → Option Val
   | a :: as, v :: vs => if a == k then some v else lookupKV k as vs
   | _, _ => Option.none
 
+/-- does input key `key` address field `f`?  In a case-insensitive class the class's own fields match in any
+letter case; a field taken over from a case-sensitive base keeps its own (un-lowered) aliases, so it matches
+its exact name, or — the input key being lower-cased first — its name when that is all lower-case
+(base.py:296-299, 528-536). -/
+def keyMatches (ci : Bool) (f : Field) (key : String) : Bool :=
+  if ci && f.own then key.toLower == f.name.toLower
+  else if ci then key == f.name || key.toLower == f.name
+  else key == f.name
+
+def lookupF (ci : Bool) (f : Field) : List String → List Val → Option Val
+  | a :: as, v :: vs => if keyMatches ci f a then some v else lookupF ci f as vs
+  | _, _ => Option.none
+
 /-- Field-first search — base.py:520-600: for every field, its input value or its default. -/
-def fieldsFF (rec : Ty → Val → Comp) (keys : List String) (items : List Val) :
+def fieldsFF (rec : Ty → Val → Comp) (ro : ROpts) (ci : Bool) (keys : List String) (items : List Val) :
     List Field → St → Except Err (List (String × Val)) × St
   | [], s => (.ok [], s)
   | f :: fs, s =>
-      match lookupKV f.name keys items with
+      match lookupF ci f keys items with
       | some v =>
           match rec f.ty v s with                                  -- `field.parse_value(value)`
           | (.error e, s1) => (.error e, s1)
           | (.ok v', s1) =>
-            match fieldsFF rec keys items fs s1 with
+            match fieldsFF rec ro ci keys items fs s1 with
             | (.error e, s2) => (.error e, s2)
             | (.ok r, s2) => (.ok ((f.name, v') :: r), s2)
       | Option.none =>
-          match getDefault f.dflt s with
-          | (Option.none, s1) => (.error .perr, s1)                -- AbsenceError
+          -- `field.is_required(options)`: declared without default and the run does not say ignore_required
+          if f.dflt.isNone && !ro.ignoreRequired then (.error .perr, s)       -- AbsenceError
+          else
+          match getDefault ro f.dflt s with
+          | (Option.none, s1) => fieldsFF rec ro ci keys items fs s1          -- no default: the field stays absent
           | (some d, s1) =>
-            match fieldsFF rec keys items fs s1 with
+            match fieldsFF rec ro ci keys items fs s1 with
             | (.error e, s2) => (.error e, s2)
             | (.ok r, s2) => (.ok ((f.name, d) :: r), s2)
 
 /-- Data-first search, first loop — base.py:424-474: parse the provided items in input order. -/
-def dataLoop (rec : Ty → Val → Comp) (fields : List Field) :
+def dataLoop (rec : Ty → Val → Comp) (ci : Bool) (fields : List Field) :
     List String → List Val → St → Except Err (List (String × Val)) × St
   | k :: ks, v :: vs, s =>
-      match fields.find? (fun f => f.name == k) with
-      | Option.none => dataLoop rec fields ks vs s                -- unknown key, addition=None: dropped
+      match fields.find? (fun f => keyMatches ci f k) with
+      | Option.none => dataLoop rec ci fields ks vs s             -- unknown key, addition=None: dropped
       | some f =>
           match rec f.ty v s with
           | (.error e, s1) => (.error e, s1)
           | (.ok v', s1) =>
-            match dataLoop rec fields ks vs s1 with
+            match dataLoop rec ci fields ks vs s1 with
             | (.error e, s2) => (.error e, s2)
-            | (.ok r, s2) => (.ok ((k, v') :: r), s2)
+            | (.ok r, s2) => (.ok ((f.name, v') :: r), s2)
   | _, _, s => (.ok [], s)
 
-/-- Data-first search, second loop — base.py:476-489: defaults of the fields not provided. -/
-def defaultLoop (have_ : List String) : List Field → St → Except Err (List (String × Val)) × St
+/-- Data-first search, second loop (base.py, `data_first_parse`): requiredness and defaults of the fields not provided. -/
+def defaultLoop (ro : ROpts) (have_ : List String) : List Field → St → Except Err (List (String × Val)) × St
   | [], s => (.ok [], s)
   | f :: fs, s =>
-      if have_.contains f.name then defaultLoop have_ fs s
+      if have_.contains f.name then defaultLoop ro have_ fs s
+      else if f.dflt.isNone && !ro.ignoreRequired then (.error .perr, s)     -- `field.is_required(options)`: AbsenceError
       else
-        match getDefault f.dflt s with
-        | (Option.none, s1) => (.error .perr, s1)
+        match getDefault ro f.dflt s with
+        | (Option.none, s1) => defaultLoop ro have_ fs s1
         | (some d, s1) =>
-          match defaultLoop have_ fs s1 with
+          match defaultLoop ro have_ fs s1 with
           | (.error e, s2) => (.error e, s2)
           | (.ok r, s2) => (.ok ((f.name, d) :: r), s2)
 
 /-- `parser.parse_data(kwargs)` → the name/value pairs of the result dict. -/
-def parseData (rec : Ty → Val → Comp) (d : Decl) (keys : List String) (items : List Val) :
+def parseData (rec : Ty → Val → Comp) (ro : ROpts) (d : Decl) (keys : List String) (items : List Val) :
     St → Except Err (List (String × Val)) × St := fun s =>
-  if d.dfs then
-    match dataLoop rec d.fields keys items s with
+  if ro.dfs.getD d.dfs then
+    match dataLoop rec d.ci d.fields keys items s with
     | (.error e, s1) => (.error e, s1)
     | (.ok r1, s1) =>
-      match defaultLoop (r1.map (·.1)) d.fields s1 with
+      -- "under ignore_required no field is required (is_required), but the defaults of unprovided fields still apply"
+      match defaultLoop ro (r1.map (·.1)) d.fields s1 with
       | (.error e, s2) => (.error e, s2)
       | (.ok r2, s2) => (.ok (r1 ++ r2), s2)
-  else fieldsFF rec keys items d.fields s
+  else fieldsFF rec ro d.ci keys items d.fields s
 
 inductive Style where
   | kw      -- `Cls(**data)`
@@ -421,12 +533,12 @@ def mkBinding (vals : List (String × Val)) : Comp := fun s =>
    { next := s.next + 3, writes := s.next :: (s.next + 1) :: (s.next + 2) :: s.writes })
 
 /-- `init_dataclass(cls, data)` / `cls(**data)` for a dict-like `data` with the given entries -/
-def initWith (rec : Ty → Val → Comp) (E : Env) (k : Nat) (keys : List String) (items : List Val) : Comp := fun s =>
+def initWith (rec : Ty → Val → Comp) (ro : ROpts) (E : Env) (k : Nat) (keys : List String) (items : List Val) : Comp := fun s =>
   match E[k]? with
   | Option.none => (.error (.unmodelled "no such class"), s)
   | some d =>
     if d.kind == .func then (.error (.unmodelled "function used as a type"), s) else
-    match parseData rec d keys items s with
+    match parseData rec ro d keys items s with
     | (.error e, s1) => (.error e, s1)
     | (.ok vals, s1) => mkInstance k d vals s1
 
@@ -474,6 +586,11 @@ def conv (E : Env) (o : Opts) : Nat → Ty → Val → Comp
             | (.error e, s3) => (.error e, s3)
             | (.ok items', s3) => mk .tuple [] items' false s3                       -- `cls.__origin__(result)`
         | (.ok _, s1) => (.error (.unmodelled "origin transform returned an atom"), s1)
+    | .con t lg mx mn =>
+        -- Rule.parse (rule.py:1681-1749): transform to the origin (+ args), then the validators on the result
+        match conv E o fuel t v s with
+        | (.error e, s1) => (.error e, s1)
+        | (.ok r, s1) => applyCons lg mx mn r s1
     | .opt t =>
         match v with
         | .none => (.ok .none, s)                                     -- exact type NoneType
@@ -484,9 +601,9 @@ def conv (E : Env) (o : Opts) : Nat → Ty → Val → Comp
             if k' == k then (.ok v, s)                                -- `type(data) == t`: the instance itself
             else (.error (.unmodelled "instance of another class"), s)
         -- `init_dataclass`: the class parses with its *own* options (`parser.make_context(context=..)`, options.py:216-222)
-        | .node _ .dict keys items => initWith (conv E {} fuel) E k keys items s
+        | .node _ .dict keys items => initWith (conv E {} fuel) {} E k keys items s
         | .node _ k' _ items =>
-            if (k' == .list || k' == .tuple) && items.isEmpty then initWith (conv E {} fuel) E k [] [] s   -- `to_dict([])`
+            if (k' == .list || k' == .tuple) && items.isEmpty then initWith (conv E {} fuel) {} E k [] [] s   -- `to_dict([])`
             else (.error (.unmodelled "data class from a sequence/opaque"), s)
         | _ => (.error .perr, s)
 
@@ -513,7 +630,7 @@ def declaredOpts (ws : List (Option Opts)) (j : Nat) : Opts := (ws[j]?.getD Opti
 
 /-- One parse through the public API.  `target` is a class (instance creation) or a decorated function
 (arguments passed positionally or by name); `keys/items` are the entries of the caller's dict. -/
-def callWith (optsOf : List (Option Opts) → Nat → Opts) (E : Env) (target : Nat) (wrapper : Nat)
+def callWith (optsOf : List (Option Opts) → Nat → Opts) (ro : ROpts) (E : Env) (target : Nat) (wrapper : Nat)
     (keys : List String) (items : List Val) : Comp := fun s =>
   match E[target]? with
   | Option.none => (.error (.unmodelled "no such target"), s)
@@ -525,7 +642,7 @@ def callWith (optsOf : List (Option Opts) → Nat → Opts) (E : Env) (target : 
       -- All four wrappers create their RuntimeContext *inside* the call (func.py:562, 801, 893, 937), resolve the
       -- parameters through the same `get_params`/`parse_params`, and differ only in when that happens (at the call
       -- when `eager`, else at the first `await` / `next`): `fkind` and `eager` do not enter the outcome.
-      match parseData (conv E o fuelDefault) { d with dfs := false } keys items s with
+      match parseData (conv E o fuelDefault) {} { d with dfs := false } keys items s with
       | (.error e, s1) => (.error e, s1)
       | (.ok vals, s1) =>
         match d.ret with
@@ -538,9 +655,9 @@ def callWith (optsOf : List (Option Opts) → Nat → Opts) (E : Env) (target : 
             match conv E o fuelDefault ty v s1 with
             | (.error e, s2) => (.error e, s2)
             | (.ok _, s2) => mkBinding vals s2
-    else initWith (conv E {} fuelDefault) E target keys items s
+    else initWith (conv E {} fuelDefault) ro E target keys items s
 
-def call := callWith effectiveOpts
+def call := callWith effectiveOpts {}
 
 /-! ### in-place mutation by the caller, `setattr`, `Schema.copy()` -/
 
@@ -657,7 +774,11 @@ def World.rootIds (w : World) : List Nat := mutIdsL w.rootVals
 
 inductive Op where
   /-- a parse; the caller first builds `input` (a dict), allocating `bump` new objects for it -/
-  | call (target wrapper : Nat) (bump : Nat) (input : Val)
+  | call (target wrapper : Nat) (bump : Nat) (input : Val) (ro : ROpts := {})
+  /-- a further declaration (a new class, a subclass or variant of an earlier one with other Options, a function):
+  its default objects are new; the earlier declarations are what they were (`generate_from_bases`, cls.py:225-262,
+  takes the base parser's fields over without touching them) -/
+  | declare (d : Decl) (bump : Nat)
   /-- the caller changes object `id` in place (reached through some result) -/
   | mutate (id : Nat) (act : Act)
   /-- `roots[root].field = v` -/
@@ -697,9 +818,10 @@ def clobber : Kind → List String → List Val → Option (List String × List 
 def World.applyWrites (w : World) (writes : List Nat) : World := writes.foldl (fun w i => w.writeAll i clobber) w
 
 def World.stepWith (cp : Val → Comp) (optsOf : List (Option Opts) → Nat → Opts) (w : World) : Op → World × Outcome
-  | .call target wrapper bump input =>
+  | .declare d bump => ({ w with env := w.env ++ [d], next := w.next + bump }, .ok)
+  | .call target wrapper bump input ro =>
       let s : St := { next := w.next + bump }
-      match callWith optsOf w.env target wrapper (entriesOf input).1 (entriesOf input).2 s with
+      match callWith optsOf ro w.env target wrapper (entriesOf input).1 (entriesOf input).2 s with
       | (.ok r, s1) =>
           let w1 := { w with roots := w.roots ++ [some input] }.applyWrites s1.writes
           ({ w1 with next := s1.next, roots := w1.roots ++ [some r] }, .ok)
